@@ -171,26 +171,38 @@ def install_serdes(I):
             return e2
 
         def keep(i):
-            acc = z3.BoolVal(True)
-            with I.elem_scope():
-                for c in gen.ifs:
-                    from pyvc.core import to_bool_term
-                    acc = z3.And(acc, to_bool_term(I.eval(c, bind(i), path, True)))
-            return acc
+            try:
+                acc = z3.BoolVal(True)
+                with I.elem_scope():
+                    for c in gen.ifs:
+                        from pyvc.core import to_bool_term
+                        acc = z3.And(acc, to_bool_term(I.eval(c, bind(i), path, True)))
+                return acc
+            except Unsupported as e:
+                return I.poison(path, e, boolean=True)
 
         def key(i):
-            with I.elem_scope():
-                return I.eval(node.key, bind(i), path, True)
+            try:
+                with I.elem_scope():
+                    return I.eval(node.key, bind(i), path, True)
+            except Unsupported as e:
+                return I.poison(path, e)
 
         def val(i):
-            with I.elem_scope():
-                return I.eval(node.value, bind(i), path, True)
+            try:
+                with I.elem_scope():
+                    return I.eval(node.value, bind(i), path, True)
+            except Unsupported as e:
+                return I.poison(path, e)
 
         def raises(i):
-            with I.elem_scope() as sc:
-                I.eval(node.key, bind(i), path, True)
-                I.eval(node.value, bind(i), path, True)
-            return z3.And(keep(i), sc.cond())
+            try:
+                with I.elem_scope() as sc:
+                    I.eval(node.key, bind(i), path, True)
+                    I.eval(node.value, bind(i), path, True)
+                return z3.And(keep(i), sc.cond())
+            except Unsupported as e:
+                return I.poison(path, e, boolean=True)
         cd = CompDict(src.length, key, val, keep, raises)
         # membership as functions of the key (both directions quantifier-free via a witness function)
         uid = next(path.names.n)
